@@ -364,7 +364,7 @@ func init() {
 		}
 		n, nseq, nfault := 1500, 300, 120
 		if thorough() {
-			n, nseq, nfault = 30000, 6000, 2500
+			n, nseq, nfault = 120000, 24000, 8000
 		}
 		var jobs []func()
 		for i := 0; i < n; i++ {
